@@ -29,6 +29,10 @@ pub fn build(k: Kind, texs: &[Tex], rng: &mut Rng, shuffle: bool) -> Built {
 }
 
 fn read(c: &mut Case, k: Kind, bytes: &[u8], what: &str) -> Option<Result<Vec<Texture>, String>> {
+    // exact-size private copy at a (usually) odd address (see monitor::Tight): a reader that runs
+    // past a truncated file reads a red zone under the sanitizer lanes, not the rest of the image
+    let tight_copy = crate::monitor::tight(bytes);
+    let bytes: &[u8] = &tight_copy;
     c.lib(what, || match k {
         Kind::Ctpk => ctpk::read(bytes).map_err(|e| e.to_string()),
         Kind::Bch | Kind::BchNew => bch::read(bytes).map_err(|e| e.to_string()),
